@@ -225,8 +225,8 @@ func (p *pathState) concretize(t *Term, kind string) uint64 {
 func (p *pathState) concretize1(t *Term, kind string) uint64 {
 	w := t.sort.w
 	for n := 0; ; n++ {
-		if n > 4096 {
-			panic(engineError{"concretize: more than 4096 feasible values for " + kind})
+		if n > concLimit {
+			panic(engineError{fmt.Sprintf("concretize: more than %d feasible values for ", concLimit) + kind})
 		}
 		d := len(p.trace)
 		if d < len(p.prefix) {
@@ -448,3 +448,7 @@ func sortedKeys(m map[string]int) []string {
 func basicKind(t types.Type) types.BasicKind {
 	return t.Underlying().(*types.Basic).Kind()
 }
+
+// concLimit bounds how many distinct values one symbolic integer may be
+// concretised to along one chain of decisions (index, length, count).
+var concLimit = 64
